@@ -31,12 +31,7 @@ CORPUS = [
 
 
 def corpus_cases():
-    out = []
-    for p, evs, sizes in CORPUS:
-        es = [{"type": t, "ts_ns": (i + 1) * 1_000_000_000, "fields": [["x", {"i": str(x)}], ["k", {"i": str(k)}]]}
-              for i, (t, x, k) in enumerate(evs)]
-        out.append(((p, es, sizes), "corpus"))
-    return out
+    return [((p, D.mk_events(evs), sizes), "corpus") for p, evs, sizes in CORPUS]
 
 
 def judge(case, answers):
@@ -58,11 +53,7 @@ def judge(case, answers):
     return fails
 
 
-def replay_obj(case, answers, fails):
-    p, evs, sizes = case
-    return {"vpl": D.vpl_program(p), "program": p, "events": evs, "batch_sizes": sizes,
-            "outputs": {m: [D.short_event(e) for e in D.all_out(a)] if "steps" in a else a for m, a in zip(D.MODES, answers)},
-            "fails": fails, "contradicts": "C16_entry_points_agree (coq/theories/Dispatch/Props.v)"}
+CONTRA = "C16_entry_points_agree (coq/theories/Dispatch/Props.v)"
 
 
 def check(run):
@@ -75,67 +66,13 @@ def check(run):
         return
     rng = run.rng
     cases = corpus_cases()
-    n = 150 if run.tier == "quick" else 3000
+    n = 130 if run.tier == "quick" else 3000
     for _ in range(n):
         p, shape = D.gen_program(rng)
         evs = D.gen_events(rng, p)
         cases.append(((p, evs, D.gen_split(rng, len(evs))), shape))
-    answers = D.run_three(binpath, [c for c, _ in cases])
-    exprs = []
-    impls = []
-    n_oracle = 0
-    for (case, shape), ans in zip(cases, answers):
-        D.count_case(run, case, shape, ans)
-        fails = judge(case, ans)
-        if fails:
-            n_oracle += 1
-            run.count("oracle_fail")
-            if n_oracle <= 3:
-                def still(c):
-                    return bool(judge(c, D.run_three(binpath, [c])[0]))
-                small = D.shrink_case(case, still)
-                sa = D.run_three(binpath, [small])[0]
-                run.violation("; ".join(judge(small, sa))[:600], replay_obj(small, sa, judge(small, sa)))
-        if all(D.answer_ok(a) for a in ans) and max(len(D.all_trace(a)) for a in ans) > D.MAX_TRACE:
-            run.count("model-skipped(trace too long)")
-            run.case(None)
-        elif all(D.answer_ok(a) for a in ans):
-            impl, ex, tbl = D.model_exprs_three(case, ans)
-            if tbl.conflicts:
-                run.tie_broken("stream pipeline is not a deterministic function of its delivery history", json.dumps(tbl.conflicts[0][1])[:500])
-            impls.append((case, impl))
-            exprs += ex
-            tr = D.all_trace(ans[0])
-            nontrivial = None
-            if D.all_out(ans[0]) and (any(d["depth"] >= 1 for d in tr) or len({d["stream"] for d in tr}) >= 2):
-                nontrivial = json.dumps([case[0], case[1], case[2]], sort_keys=True)
-            run.case(nontrivial, sample={"vpl": D.vpl_program(case[0]), "events": [D.short_event(e) for e in case[1]], "batches": case[2],
-                                         "out": [D.short_event(e) for e in D.all_out(ans[0])]} if len(run.samples) < 3 and nontrivial else None)
-        else:
-            run.case(None)
-    run.extra["oracle_failures"] = n_oracle
-    model = D.eval_model(run, "C16", exprs)
-    nd = 0
-    for i, (case, impl) in enumerate(impls):
-        for j, m in enumerate(D.MODES):
-            mo = model[3 * i + j]
-            if mo is not None and mo != impl[j]:
-                nd += 1
-                if nd <= 3:
-                    run.tie_broken("correspondence Dispatch/Model.v vs Engine::%s on\n%s events %s batches %s" % (
-                        {"event": "process", "batch": "process_batch", "sync": "process_batch_sync"}[m],
-                        D.vpl_program(case[0]), [D.short_event(e) for e in case[1]], case[2]), D.first_diff(impl[j], mo))
-    run.extra["disagreements"] = nd
+    D.three_way_check(run, binpath, cases, judge, "C16", CONTRA)
 
 
 def replay(run, path):
-    r = json.load(open(path))["replay"]
-    ok, bindir, lg = harness.build("vp-dispatch")
-    binpath = os.path.join(bindir, "vp-dispatch")
-    case = (r["program"], r["events"], r["batch_sizes"])
-    ans = D.run_three(binpath, [case])[0]
-    fails = judge(case, ans)
-    run.case(("replay",), {"vpl": r["vpl"]})
-    run.case(("replay2",))
-    if fails:
-        run.violation("; ".join(fails)[:600], replay_obj(case, ans, fails))
+    D.replay_three(run, path, judge, CONTRA)
